@@ -625,10 +625,10 @@ class AsyncFIXConnection:
         Args:
             resend_msg: ResendRequest(35=2) FIXMessage
         """
-        if self._connection_state != ConnectionState.RESENDREQ_AWAITING:
-            await self._state_set(ConnectionState.RESENDREQ_HANDLING)
-
         try:
+            if self._connection_state != ConnectionState.RESENDREQ_AWAITING:
+                await self._state_set(ConnectionState.RESENDREQ_HANDLING)
+
             assert resend_msg.msg_type == FMsg.RESENDREQUEST
             assert self._connection_state in {
                 ConnectionState.RESENDREQ_HANDLING,
